@@ -19,13 +19,18 @@ func VerifC02Par() {
 	rt := map[int]int32{0: 10, 1: 13, 3: 17, 8: 103, 9: 203}[k]
 	p := s.w.newConn()
 	var other func()
+	leaver, stayer := s.a2, s.a1
 	otherName := "join"
 	switch verifnd.Choice(3) {
 	case 0:
 		other = func() { p.join(s.a1.sid, 9) }
 	case 1:
+		// the member that joined before a2, or a2 itself (the last one to have joined), departs
 		otherName = "departure"
-		other = func() { s.a2.rh.HandleDisconnect(nil) }
+		if verifnd.Bool() {
+			leaver, stayer = s.a1, s.a2
+		}
+		other = func() { leaver.rh.HandleDisconnect(nil) }
 	case 2:
 		otherName = "request"
 		r2, _ := s.c09Request(s.a1, s.eOther, 0)
@@ -43,17 +48,24 @@ func VerifC02Par() {
 						continue
 					}
 				}
+				if rt == 13 {
+					// a departing member's own entities are deleted too (type 13 as well): count only a0's delete
+					var b hagallpb.EntityDeleteBroadcast
+					if m.DataTo(&b) == nil && b.EntityId != s.eOwn {
+						continue
+					}
+				}
 				n++
 			}
 		}
 		return n
 	}
 	verifnd.Assert(count(s.a0.drain()) == 0, "C02.par.never_echoed", name, otherName)
-	verifnd.Assert(count(s.a1.drain()) == 1, "C02.par.member_throughout_gets_it_once", name, otherName)
+	verifnd.Assert(count(stayer.drain()) == 1, "C02.par.member_throughout_gets_it_once", name, otherName)
 	if otherName != "departure" {
-		verifnd.Assert(count(s.a2.drain()) == 1, "C02.par.member_throughout_gets_it_once", name, otherName)
+		verifnd.Assert(count(leaver.drain()) == 1, "C02.par.member_throughout_gets_it_once", name, otherName)
 	} else {
-		verifnd.Assert(count(s.a2.drain()) <= 1, "C02.par.at_most_once", name, otherName)
+		verifnd.Assert(count(leaver.drain()) <= 1, "C02.par.at_most_once", name, otherName)
 	}
 	verifnd.Assert(count(p.drain()) <= 1, "C02.par.at_most_once", name, otherName)
 	verifnd.Assert(len(s.b0.drain()) == 0, "C02.par.other_session_silent", name, otherName)
